@@ -21,7 +21,7 @@ chk.extra['rule'] = ('toy source/target force fields (1-3 residue types; one-to-
                      'permuted keys; shuffled node order; chains); a case is non-trivial if it has >= 2 placements and '
                      '>= 1 bond between placements, or an overlap / unmapped / spawned feature; distinct = distinct '
                      'protocol line')
-chk.lean(['VermouthProps.C01', 'VermouthProps.C01_Attr'], 'driver_c01')
+chk.lean(['VermouthProps.C01', 'VermouthProps.C01_Attr', 'VermouthProps.C01_ModAttr'], 'driver_c01')
 
 import networkx as nx
 import vermouth
@@ -1502,6 +1502,126 @@ answers = iter(chk.drv.ask(asked) if chk.lean_ok else [None] * len(asked))
 for (cid, ln, impl, errs, nontriv), sent in zip(ax_recs, ax_lines):
     mo = None if sent is None else next(answers)
     chk.case(cid, ln, impl, mo, ['%s: %s' % e for e in errs], nontriv)
+
+# ----------------------------------------------------------------------------
+# modification mappings with `replace` dictionaries (non-core attributes, renamed / None atomname, resid,
+# charge_group), repeated interactions inside one modification and the same interaction set by two
+# modifications, log entries and citations of the modification, any attribute tuples: real do_mapping vs `mapx`
+# ----------------------------------------------------------------------------
+REPLACES = [{'atype': 'Q5'}, {'atype': 'Q5', 'mark': 3}, {'atomname': 'B9'}, {'atomname': None}, {'charge_group': 5},
+            {'resid': 9}, {'mark': 1, 'atomname': 'B1'}, {}]
+
+
+def build_rich_mod_case(rng):
+    mol, mappings, ffb, meta = build_mod_case(rng)
+    tags = set()
+    coll = mappings['c01src']['c01tgt']
+    mods = [m for m in coll.values() if m.type == 'modification']
+    for m in mods:
+        bt = m.block_to
+        hosts = [n for n, a in bt.nodes(data=True) if not a.get('PTM_atom')]
+        news = [n for n, a in bt.nodes(data=True) if a.get('PTM_atom')]
+        for h in hosts:
+            if rng.random() < 0.55:
+                rep = dict(rng.choice(REPLACES))
+                bt.nodes[h]['replace'] = rep
+                tags.add('replace_' + ('atomname_None' if rep.get('atomname', 0) is None else
+                                       'atomname' if 'atomname' in rep else
+                                       'resid_or_cg' if ('resid' in rep or 'charge_group' in rep) else 'other'))
+        for q in news:
+            if rng.random() < 0.2:
+                bt.nodes[q]['replace'] = {'atype': 'P9'}
+            if rng.random() < 0.2:
+                bt.nodes[q]['resid'] = rng.choice([1, 4])
+        r = rng.random()
+        if r < 0.45 and hosts:
+            atoms = [hosts[0]] + news[:1]
+            typ = 'bonds' if len(atoms) == 2 else 'position_restraints'
+            style = rng.choice(['two_versions', 'same_version', 'single'])
+            if style == 'two_versions':
+                bt.add_interaction(typ, atoms, ['1', '0.1'], meta={'version': 1})
+                bt.add_interaction(typ, atoms, ['1', '0.2'], meta={'version': 2})
+                tags.add('interaction_twice_in_one_modification')
+            elif style == 'same_version':
+                bt.add_interaction(typ, atoms, ['1', '0.3'])
+                bt.add_interaction(typ, atoms, ['1', '0.4'])
+                tags.add('interaction_twice_in_one_modification')
+            else:
+                bt.add_interaction('position_restraints', [hosts[0]], ['1', '%d' % rng.randint(100, 102)])
+                tags.add('host_interaction')
+        if rng.random() < 0.3:
+            bt.log_entries[rng.choice(['warning', 'info'])]['modification %s applied' % '+'.join(m.names)] = []
+            tags.add('modification_log_entry')
+        if rng.random() < 0.3:
+            bt.citations.update(rng.sample(['modpaper', 'paperA'], rng.randint(1, 2)))
+    for blk in (m for m in coll.values() if m.type == 'block'):
+        if rng.random() < 0.3:
+            blk.block_to.log_entries['info']['block entry'] = []
+        if rng.random() < 0.3:
+            blk.block_to.add_interaction('position_restraints', ['B1'], ['1', '1000'])
+    for n in mol.nodes:
+        a = mol.nodes[n]
+        r = rng.random()
+        if r < 0.08:
+            a['chain'] = rng.choice(['B', None])
+            tags.add('chain_perturbed')
+        elif r < 0.12:
+            del a['chain']
+        if rng.random() < 0.05:
+            a['replace'] = rng.choice([{'chain': 'Z'}, {'resname': 'QQ'}])
+    cfg = gen_cfg(rng) if rng.random() < 0.5 else (KEEP, MUST, STASH)
+    return mol, mappings, ffb, meta, cfg, tags
+
+
+def rich_oracle(mol, out, logs, mods, rawm):
+    """what holds whatever the `replace` dictionaries do"""
+    errs = []
+    types = [(lvl, typ) for lvl, typ, _ in logs]
+    if any(out.nodes[k].get('atomname', '') is None and 'mapping_weights' in out.nodes[k] for k in out.nodes):
+        errs.append(('remove_none', 'a particle whose atomname is None survived'))
+    if any(x not in out for t, l in out.interactions.items() for it in l for x in it.atoms):
+        errs.append(('remove_none', 'an interaction mentions a removed particle'))
+    cons = {n: dict(out.nodes[n].get('mapping_weights', {})) for n in out.nodes}
+    contributing = set().union(*[set(c) for c in cons.values()]) if cons else set()
+    removed_any = any(a.get('replace', {}).get('atomname', 0) is None for m in mods for _, a in m.block_to.nodes(data=True))
+    lost = [a for a in mol.nodes if a not in contributing and mol.nodes[a].get('element', '') != 'H']
+    if lost and not removed_any and (logging.WARNING, 'unmapped-atom') not in types:
+        errs.append(('no_silent_loss', 'atoms %r contribute to no particle, no unmapped-atom warning' % lost[:5]))
+    for n in out.nodes:
+        ml = out.nodes[n].get('modifications')
+        if ml is not None and len({id(x) for x in ml}) != len(ml):
+            errs.append(('modifications_recorded', 'particle %r lists a modification twice' % (n,)))
+    return errs
+
+
+xrng = chk.rng('rich-modification')
+mx_lines, mx_recs = [], []
+for i in range(3000 if chk.thorough else 250):
+    mol, mappings, ffb, meta, cfg, tags = build_rich_mod_case(xrng)
+    status, out, rawb, rawm, logs, blocks, mods, called = run_with_mods(mol, mappings, ffb, keep=cfg[0], must=cfg[1], stash=cfg[2])
+    logargs = list(LOGARGS)
+    ln = proto_mapx(cfg, mol, blocks, rawb, mods, rawm, ffb)
+    impl = canon_x(status, out, logs, logargs, mods)
+    errs = []
+    if status == 'ok':
+        npre = sum(len(blocks[j].block_to) for j, _ in rawb) + sum(
+            sum(1 for _, a in mods[j].block_to.nodes(data=True) if a.get('PTM_atom')) for j, _ in rawm)
+        impl += canon_x_tail(out, npre)
+        if npre != len(out):
+            tags.add('particles_removed')
+        errs = rich_oracle(mol, out, logs, mods, rawm)
+        if any(msg.startswith('Interaction set by multiple') for _, _, msg in logs):
+            tags.add('warning_multiple_modification_mappings')
+        if any(len(out.nodes[k].get('modifications', []) or []) >= 2 for k in out.nodes):
+            tags.add('particle_with_two_modifications')
+    for t in tags:
+        chk.count('modx_feature_' + t)
+    chk.count('modx_status=' + status)
+    mx_lines.append(ln)
+    mx_recs.append(('modx-%d' % i, impl, errs, len(rawm)))
+mx_models = chk.drv.ask(mx_lines) if chk.lean_ok else [None] * len(mx_lines)
+for (cid, impl, errs, nm), ln, mo in zip(mx_recs, mx_lines, mx_models):
+    chk.case(cid, ln, impl, mo, ['%s: %s' % e for e in errs], nm >= 1)
 
 # ----------------------------------------------------------------------------
 # thorough: charmm -> martini3001 on the tier-0 / tier-1 test structures (oracle only)
